@@ -33,7 +33,7 @@ theorem rstripEnd_spec (cw : Char → Nat) (t : Text σ) (h : Inv t) (size : Nat
     ⟨t.plain.length, rlen_le _, by simp, by rw [List.take_of_length_le]; rw [view_eq_annot, annot_length]; omega, h, rfl⟩
   unfold Text.rstripEndW
   simp only
-  -- the length the code compares with the width: characters (today) or cells (repaired)
+  -- the length the code compares with the width: characters (as found) or cells (repaired, fix f5f2be9)
   have hTL : ∃ n : Nat, (if chars = true then t.length else (cellLen cw t.plain : Int)) = (n : Int) := by
     cases chars
     · exact ⟨cellLen cw t.plain, by simp⟩
